@@ -273,6 +273,24 @@ func init() {
 		s.Cov.N["dump_kept_then_loaded"]++
 		return nil
 	}
+	// LoadKept loads the kept dump into a world that is fresh or was just reset (resources may already be there).
+	extraCalls["LoadKept"] = func(s *Sess, op *Op, out *Outcome) {
+		s.W.LoadEntities(&s.kept.d)
+	}
+	extraApply["LoadKept"] = func(s *Sess, op *Op, out *Outcome) []ExpEvent {
+		k := s.kept
+		s.kept = nil
+		s.M.Reset()
+		for _, e := range k.alive {
+			s.M.Alive[e] = &MEnt{Comps: map[int][]byte{}}
+		}
+		for h := range k.ledger {
+			s.M.Ledger[h] = true
+		}
+		s.M.Created, s.M.Removed = k.created, k.removed
+		s.Cov.N["dump_loaded_into_world_with_resources"]++
+		return nil
+	}
 	extraGen["DumpKeep"] = func(g *Gen) *Op {
 		if g.S.kept != nil || g.S.open > 0 {
 			return nil
@@ -285,4 +303,25 @@ func init() {
 		}
 		return &Op{K: "ResetLoad"}
 	}
+}
+
+// helperDump builds an EntityDump from a scratch world: n entities created, a random part of them removed.
+func helperDump(r *Rng, n int) *keptDump {
+	sw := ecs.NewWorld(ecs.NewConfig().WithCapacityIncrement(Pick(r, []int{128, 1, 16, 300})))
+	ents := []ecs.Entity{}
+	for i := 0; i < n; i++ {
+		ents = append(ents, sw.NewEntity())
+	}
+	Shuffle(r, ents)
+	kill := r.Intn(len(ents)/2 + 1)
+	for _, e := range ents[:kill] {
+		sw.RemoveEntity(e)
+	}
+	alive := append([]ecs.Entity{}, ents[kill:]...)
+	sortEnts(alive)
+	k := &keptDump{d: sw.DumpEntities(), alive: alive, ledger: map[ecs.Entity]bool{}, created: n, removed: kill}
+	for _, e := range ents {
+		k.ledger[e] = true
+	}
+	return k
 }
